@@ -8,8 +8,8 @@ git apply "$1" || { echo "PATCH-DOES-NOT-APPLY"; exit 3; }
 export GOFLAGS=-mod=mod GOPROXY=off GOSUMDB=off GOTOOLCHAIN=local
 go build ./... || { echo "BUILD-FAILS"; exit 3; }
 n=0
-for p in $(/verif/bin/mqttverif list | cut -d: -f1); do
-  out=$(/verif/bin/mqttverif check -p $p -repo $wt -no-evidence 2>&1)
+for p in ${PROPS:-$(${BIN:-/verif/bin/mqttverif} list | cut -d: -f1)}; do
+  out=$(${BIN:-/verif/bin/mqttverif} check -p $p -repo $wt -no-evidence 2>&1)
   if echo "$out" | grep -q '^VIOLATION'; then
     n=$((n+1))
     echo "$out" | grep -q 'replay=analyser-panic' && echo "$p	PANIC	-	-	the analyser panicked (see mqttverif check -p $p -repo <tree>)"
